@@ -278,6 +278,8 @@ var multiBlockGeos = []lz.BufConfig{
 	{BufferSize: 16, WindowSize: 16, BlockSize: 5},
 	{BufferSize: 16, WindowSize: 16, BlockSize: 2},
 	{BufferSize: 8, ShrinkSize: 2, WindowSize: 8, BlockSize: 3},
+	// window smaller than what Shrink keeps: after the first Shrink the window starts inside the buffer
+	{BufferSize: 6, ShrinkSize: 4, WindowSize: 2, BlockSize: 2},
 }
 
 // trickle switches to the trickle default history and keeps the Parse and Shrink deviations of m.
